@@ -1,5 +1,5 @@
 """C17 — reused comparison targets carry nothing over (the history clause is decided by typestate)."""
-from ..rules import validate, typestate, fields, vis, eqord, witness, casts
+from ..rules import validate, typestate, fields, vis, eqord, witness, casts, summary
 
 EXPL = ("Decides the history clause: typestate Zero/Unknown over the 64xu64 occupancy-mask arrays of FuzzyHashCompareTarget (two "
         "locations, through the block_hash_K_mut views) and BlockHashPositionArray, with effects inferred from bodies (Clear = whole "
@@ -29,6 +29,7 @@ def run(ctx):
         ctx.guard("C17", "complete", lambda: fields.dest_complete(ctx, prog, scope=r"internals::compare::|<internals::compare::", floor=1))
         ctx.guard("C17", "vis", lambda: vis.representation_private(ctx, prog))
         ctx.guard("C17", "panic-pure", lambda: validate.panic_purity(ctx, prog))
+        ctx.guard("C17", "summaries", lambda: summary.check(ctx, prog, 'compare::position_array::|FuzzyHashCompareTarget::(new|init_from|block_hash_[12]|is_equiv|full_eq|log_block_size|block_size)|core::default::Default>::default', floor=10))
         if c == "dbg":
             ctx.guard("C17", "contracts", lambda: validate.constructors(ctx, prog))
         ctx.guard("C17", "traits", lambda: vis.trait_census(ctx, prog, scope='position_array::|FuzzyHashCompareTarget'))
